@@ -19,6 +19,9 @@ package ech
 //@ pure cfgMnlOff(b []byte) int = cfgCsOff(b) + 2 + cfgCsLen(b)
 //@ pure cfgPnLen(b []byte) int = int(b[cfgMnlOff(b) + 1])
 //@ pure cfgPnOff(b []byte) int = cfgMnlOff(b) + 2
+// the j-th cipher suite of the encoded config b
+//@ purerec cfgSuiteKDF(b []byte, j int) int = be16(b, cfgCsOff(b) + 2 + 4*j)
+//@ purerec cfgSuiteAEAD(b []byte, j int) int = be16(b, cfgCsOff(b) + 4 + 4*j)
 // cfgValid: b starts with a structurally valid ECHConfig, every declared length fitting inside the enclosing one.
 //@ pure cfgValid(b []byte) bool = len(b) >= 4 && be16(b, 0) == 0xfe0d && len(b) >= 4 + cfgBodyLen(b) &&
 //@     cfgBodyLen(b) >= 5 + cfgPkLen(b) + 2 && cfgBodyLen(b) >= 5 + cfgPkLen(b) + 2 + cfgCsLen(b) + 2 && cfgCsLen(b) % 4 == 0 &&
@@ -26,7 +29,7 @@ package ech
 // cfgFields: the ConfigSpec o holds exactly the fields encoded in b.
 //@ pure cfgFields(o ConfigSpec, b []byte) bool = int(o.Version) == 0xfe0d && int(o.ID) == int(b[4]) && int(o.KEM) == be16(b, 5) &&
 //@     bytesEq(o.PublicKey, window(b, 9, cfgPkLen(b))) && 4*len(o.CipherSuites) == cfgCsLen(b) &&
-//@     forall(j, 0, len(o.CipherSuites), int(o.CipherSuites[j].KDF) == be16(b, cfgCsOff(b) + 2 + 4*j) && int(o.CipherSuites[j].AEAD) == be16(b, cfgCsOff(b) + 4 + 4*j), trig(o.CipherSuites[j])) &&
+//@     forall(j, 0, len(o.CipherSuites), int(o.CipherSuites[j].KDF) == cfgSuiteKDF(b, j) && int(o.CipherSuites[j].AEAD) == cfgSuiteAEAD(b, j), trig(o.CipherSuites[j])) &&
 //@     int(o.MaximumNameLength) == int(b[cfgMnlOff(b)]) && bytesEq(o.PublicName, window(b, cfgPnOff(b), cfgPnLen(b)))
 // what ConfigSpec.Bytes must produce
 //@ pure cfgBodySize(c ConfigSpec) int = 5 + len(c.PublicKey) + 2 + 4*len(c.CipherSuites) + 2 + len(c.PublicName) + 2
@@ -206,6 +209,31 @@ package ech
 //@         be16(out, serX(c) + extOff(c.Extensions, i) + 2) == len(c.Extensions[i].Data) &&
 //@         bytesEq(window(out, serX(c) + extOff(c.Extensions, i) + 4, len(c.Extensions[i].Data)), c.Extensions[i].Data), trig(c.Extensions[i]))
 
+// chEoff is monotone in its index (each extension occupies at least its 4-byte header).
+//@ lemma chEoffMono(m []byte, i int, j int) induct i upto j trigger chEoff(m, i), chEoff(m, j) = i <= j ==> chEoff(m, i) <= chEoff(m, j)
+
+// echIdx(c): index of the encrypted_client_hello extension of c (len(c.Extensions) when there is none).
+//@ pure echIdx(c *clientHello) int = firstFrom(c.Extensions, 0xfe0d, 0)
+// echUnique: at most one encrypted_client_hello extension.
+//@ pure echUnique(c *clientHello) bool = forall(i, 0, len(c.Extensions), int(c.Extensions[i].Type) == 0xfe0d ==> i == echIdx(c), trig(c.Extensions[i]))
+// payloadWin(c, m, k): offset k of the message m (from which c was parsed) lies in the last len(payload) bytes of the ECH extension's data.
+//@ pure payloadWin(c *clientHello, m []byte, k int) bool = echIdx(c) < len(c.Extensions) && c.echExt != nil &&
+//@     k >= chExStart(m) + chEoff(m, echIdx(c) + 1) - len(c.echExt.Payload) && k < chExStart(m) + chEoff(m, echIdx(c) + 1)
+
+// Key selection (draft-ietf-tls-esni 7.1): a key is a candidate for an outer hello when its config parses, its config id
+// is the one the client named and it lists the client's cipher suite.
+//@ pure cfgHasSuite(cfg []byte, kdf int, aead int) bool = exists(j, 0, cfgCsLen(cfg)/4, cfgSuiteKDF(cfg, j) == kdf && cfgSuiteAEAD(cfg, j) == aead)
+//@ pure keyCand(k Key, h *clientHello) bool = cfgValid(k.Config) && int(k.Config[4]) == int(h.echExt.ConfigID) &&
+//@     cfgHasSuite(k.Config, int(h.echExt.CipherSuite.KDF), int(h.echExt.CipherSuite.AEAD))
+// keySetup: identity of the HPKE context that SetupReceipient derives for key k and outer hello h
+// (KEM from the config, KDF/AEAD from the client's suite, the key's private key, info = "tls ech\0" || config, the client's enc).
+//@ pure keySetupOk(k Key, h *clientHello) bool = hsetupOk(be16(k.Config, 5), int(h.echExt.CipherSuite.KDF), int(h.echExt.CipherSuite.AEAD), hprivOf(be16(k.Config, 5), cid(k.PrivateKey)), cid(cat("tls ech\x00", k.Config)), cid(h.echExt.Enc))
+//@ pure keySetup(k Key, h *clientHello) int = hsetup(be16(k.Config, 5), int(h.echExt.CipherSuite.KDF), int(h.echExt.CipherSuite.AEAD), hprivOf(be16(k.Config, 5), cid(k.PrivateKey)), cid(cat("tls ech\x00", k.Config)), cid(h.echExt.Enc))
+// keyOpens: key k is a candidate whose context opens the payload of h under the associated data a.
+//@ pure keyOpens(k Key, h *clientHello, a []byte) bool = keyCand(k, h) && keySetupOk(k, h) && hopens(keySetup(k, h), 0, cid(a), cid(h.echExt.Payload))
+// aadIs: a is the ClientHelloOuterAAD of the message m from which h was parsed: m without its 4-byte handshake header, payload bytes zeroed.
+//@ pure aadIs(a []byte, h *clientHello, m []byte) bool = len(a) == len(m) - 4 && forall(j, offset(a), offset(a) + len(a), int(mem(a, j)) == ite(payloadWin(h, m, j - offset(a) + 4), 0, int(m[j - offset(a) + 4])))
+
 // echInv: what parseExtensions establishes about the ECH extension(s); needed by marshal(aad).
 //@ pure echInv(c *clientHello) bool = forall(i, 0, len(c.Extensions), c.Extensions[i].Type == 0xfe0d ==> c.echExt != nil && len(c.echExt.Payload) <= len(c.Extensions[i].Data))
 
@@ -216,6 +244,7 @@ package ech
 
 //@ func clientHello.marshal returns (out, err)
 //@   ghostparam m []byte
+//@   use firstFromProps, chEoffMono
 //@   requires c != nil
 //@   requires aad ==> echInv(c)
 //@   terminates
@@ -233,9 +262,15 @@ package ech
 //@       invariant[L:item-type] forall(i, 0, ri1, be16(bbuf(b), serX(c) + extOff(c.Extensions, i)) == int(c.Extensions[i].Type) && extOff(c.Extensions, i) >= 0, trig(c.Extensions[i]))
 //@       invariant[L:item-len] !berr(b) ==> forall(i, 0, ri1, be16(bbuf(b), serX(c) + extOff(c.Extensions, i) + 2) == len(c.Extensions[i].Data), trig(c.Extensions[i]))
 //@       invariant[L:item-data] forall(i, 0, ri1, bytesEq(window(bbuf(b), serX(c) + extOff(c.Extensions, i) + 4, len(c.Extensions[i].Data)), c.Extensions[i].Data), trig(c.Extensions[i]))
+//@   behavior aad
+//@     assumes aad && parsedFrom(c, m) && noSlack(m) && echInv(c) && echUnique(c)
+//@     ensures[L:aad] err == nil ==> len(out) == 5 + len(m) && forall(j, offset(out) + 5, offset(out) + len(out), int(mem(out, j)) == ite(payloadWin(c, m, j - offset(out) - 5), 0, int(m[j - offset(out) - 5])))
+//@     loop 1 "range c.Extensions"
+//@       invariant[L:pos] len(bbuf(b)) == 5 + chExStart(m) + chEoff(m, ri1)
+//@       invariant[L:prefix] forall(j, 9, len(bbuf(b)), j != 5 + chExOff(m) && j != 6 + chExOff(m) ==> int(mem(bbuf(b), j)) == ite(payloadWin(c, m, j-5), 0, int(m[j-5])))
 //@   behavior passthrough
 //@     assumes !aad && parsedFrom(c, m) && noSlack(m)
-//@     ensures[L:passthrough] err == nil ==> len(out) == 5 + len(m) && forall(j, 5, len(out), out[j] == m[j-5])
+//@     ensures[L:passthrough] err == nil ==> len(out) == 5 + len(m) && forall(j, offset(out) + 5, offset(out) + len(out), mem(out, j) == m[j - offset(out) - 5])
 //@     ensures[L:succeeds] len(m) <= 65535 ==> err == nil
 //@     loop 1 "range c.Extensions"
 //@       invariant[L:pos] len(bbuf(b)) == 5 + chExStart(m) + chEoff(m, ri1)
@@ -247,18 +282,22 @@ package ech
 //@   modifies c.ServerName, c.ALPNProtos, c.hasECHOuterExtensions, c.tls13, c.echExt
 //@   allocates echExt
 //@   terminates
+//@   use firstFromProps
 //@   ensures[S:echinv] err == nil ==> echInv(c)
+//@   ensures[S:echunique] err == nil ==> echUnique(c) && (c.echExt != nil) == (echIdx(c) < len(c.Extensions))
 //@   ensures[F:errclass] err != nil ==> alertCode(err) == 50 || alertCode(err) == 47
 //@   ensures[F:echtype] err == nil && c.echExt != nil ==> c.echExt.Type <= 1
 //@   loop 1 "range c.Extensions"
 //@     invariant[echtype] c.echExt != nil ==> c.echExt.Type <= 1
 //@     invariant[no-ech-yet] c.echExt == nil ==> forall(i, 0, ri1, c.Extensions[i].Type != 0xfe0d)
+//@     invariant[ech-first] c.echExt != nil ==> echIdx(c) < ri1 && forall(i, 0, ri1, int(c.Extensions[i].Type) == 0xfe0d ==> i == echIdx(c), trig(c.Extensions[i]))
 //@     invariant[payload-fits] c.echExt != nil ==> forall(i, 0, ri1, c.Extensions[i].Type == 0xfe0d ==> len(c.echExt.Payload) <= len(c.Extensions[i].Data))
 
 //@ func parseClientHello returns (hello, err)
 //@   allocates clientHello, echExt
 //@   terminates
 //@   ensures[S:nonnil] err == nil ==> hello != nil && fresh(hello) && echInv(hello) && (hello.echExt != nil ==> hello.echExt.Type <= 1)
+//@   ensures[S:echunique] err == nil ==> echUnique(hello) && (hello.echExt != nil) == (echIdx(hello) < len(hello.Extensions))
 //@   ensures[L:parsed] err == nil ==> parsedFrom(hello, buf)
 //@   ensures[F:padding] err == nil && hello.echExt != nil && hello.echExt.Type == 1 ==> forall(j, offset(buf) + chExStart(buf) + chExLen(buf), offset(buf) + len(buf), mem(buf, j) == 0)
 //@   loop 2 "range s"
@@ -332,6 +371,12 @@ package ech
 //@     decreases len(c.writeBuf)
 
 //@ func Conn.processEncryptedClientHello returns (inner, err)
+//@   ghostparam m []byte, aadv []byte
+//@   bind "h.marshalAAD()" m = m
+//@   callsite "hpke.ParseHPKEPrivateKey(" requires[F:priv-args] int(arg0) == be16(key.Config, 5) && arg1 == key.PrivateKey
+//@   callsite "hpke.SetupReceipient(" requires[F:setup-args] int(arg0) == be16(key.Config, 5) && arg1 == h.echExt.CipherSuite.KDF && arg2 == h.echExt.CipherSuite.AEAD && arg3 == echPriv &&
+//@       bytesEq(arg4, cat("tls ech\x00", key.Config)) && arg5 == h.echExt.Enc
+//@   callsite "ctx.Open(" requires[F:open-args] arg1 == h.echExt.Payload && keyCand(key, h) && (isRetry ==> ctx == old(c.hpkeCtx))
 //@   requires c != nil && h != nil && echInv(h) && c.debugf != nil
 //@   requires isRetry ==> c.outer != nil && c.outer.echExt != nil && c.hpkeCtx != nil && hseq(c.hpkeCtx) == 1
 //@   requires !isRetry ==> c.hpkeCtx == nil
@@ -382,6 +427,15 @@ package ech
 //@     invariant 0 <= p && p <= len(h.Extensions)
 //@     invariant[L:scan] firstFrom(h.Extensions, int(extType), p) == firstFrom(h.Extensions, int(extType), entry(p))
 //@     decreases len(h.Extensions) - p
+//@   behavior keyindep
+//@     assumes !isRetry && h.tls13 && h.echExt != nil && len(c.keys) > 0 && len(h.echExt.Enc) > 0 && parsedFrom(h, m) && noSlack(m) && len(m) <= 65535 && echUnique(h) && aadIs(aadv, h, m)
+//@     assumes forall(i, 0, len(c.keys), keyCand(c.keys[i], h) ==> hprivOk(be16(c.keys[i].Config, 5), cid(c.keys[i].PrivateKey)), trig(c.keys[i]))
+//@     callsite "ctx.Open(" requires[F:aad-is-outer] bytesEq(arg0, aadv)
+//@     ensures[F:nomatch-only-if-none-opens] err == errNoMatch ==> forall(i, 0, len(c.keys), !keyOpens(c.keys[i], h, aadv), trig(c.keys[i]))
+//@     ensures[F:first-opening-key] inner != nil ==> exists(i, 0, len(c.keys), keyOpens(c.keys[i], h, aadv) && hid(c.hpkeCtx) == keySetup(c.keys[i], h) && forall(u, 0, i, !keyOpens(c.keys[u], h, aadv), trig(c.keys[u])))
+//@     ensures[F:opening-key-never-falls-back] (inner == nil && (err == nil || err == errNoMatch)) ==> forall(i, 0, len(c.keys), !keyOpens(c.keys[i], h, aadv), trig(c.keys[i]))
+//@     loop 1 "range c.keys"
+//@       invariant[F:none-opened] forall(i, 0, ri1, !keyOpens(c.keys[i], h, aadv), trig(c.keys[i]))
 
 //@ func Conn.handleClientHello returns (outer, inner, err)
 //@   requires c != nil && c.debugf != nil && len(record) >= 5
